@@ -68,6 +68,7 @@ SPECS = [
     ("y ~ scale(wv) + x", "a"),  # 'wv' is a float array of the caller, not a column
     ("y ~ fn(x) + f", "a", "envA"),  # built through one caller-held Environment object with extra_namespace A ...
     ("y ~ fn(x) + f", "a", "envB"),  # ... and B
+    ("y ~ center(x) + f:g:center(x)", "a"),  # full rank needs a helper term (g:center(x)) that holds a stateful transform
 ]
 
 
